@@ -248,7 +248,7 @@ func zByScore(ns []zNode, o Op) []zNode {
 func setSorted(s map[string]bool) string {
 	ss := make([]string, 0, len(s))
 	for x := range s {
-		ss = append(ss, strconv.Quote(x))
+		ss = append(ss, q([]byte(x)))
 	}
 	sort.Strings(ss)
 	return "[" + strings.Join(ss, ",") + "]"
@@ -397,7 +397,7 @@ func (m *Model) Expect(o Op, writable bool) Exp {
 		}
 		any := map[string]bool{}
 		for x := range s {
-			any[strconv.Quote(x)] = true
+			any[q([]byte(x))] = true
 		}
 		return Exp{PopAny: any}
 	case "SIsMember":
